@@ -5,7 +5,7 @@ from spec import M, finite
 import indcommon as ic
 
 PROP = "C06"
-LEAN_MODS = ["Cte.Props.C06"]
+LEAN_MODS = ["Cte.Props.C06", "Cte.Props.C06Bounds"]
 HARNESS = "ind"
 N = {"quick": 250, "thorough": 6000}
 CORRESPONDENCES = ["U-value of every wall (None exactly; value to two decimals, tie-aware)"]
